@@ -713,6 +713,9 @@ class HtpasswdFile(_CommonFile):
             to prevent ambiguity with the dictionary method.
             The old alias was removed in Passlib 1.8.
         """
+        if isinstance(password, str):
+            # NOTE: encoding password to match file, same as check_password() does
+            password = password.encode(self.encoding)
         hash = self.context.hash(password)
         return self.set_hash(user, hash)
 
